@@ -45,14 +45,15 @@ class G:
     def __init__(self, r, refs=True, zero_dims=True, max_nd=3, strings=True):
         self.r, self.refs, self.zero_dims, self.max_nd, self.strings = r, refs, zero_dims, max_nd, strings
 
-    def ty(self, depth, compound_only=False):
+    def ty(self, depth, compound_only=False, target=False):
+        """target=True: a reference target / union member (Struct or Array, as the grammar says)"""
         r = self.r
         kinds = []
         if not compound_only:
             kinds += ["scalar"] * 3 + (["string"] if self.strings else [])
         if depth > 0:
             kinds += ["struct"] * 2 + ["array"] * 3
-            if depth > 1 and self.refs:
+            if depth > 1 and self.refs and not target:
                 kinds += ["ref", "uref"]
         elif compound_only:
             kinds += ["struct0"]
@@ -75,12 +76,12 @@ class G:
                 r.shuffle(order)
             return ("array", self.ty(depth - 1), shape, order)
         if k == "ref":
-            return ("ref", self.ty(depth - 1, compound_only=True))
+            return ("ref", self.ty(depth - 1, compound_only=True, target=True))
         if k == "uref":
             n = r.choice([1, 2, 3])
             ms, names = [], set()
             while len(ms) < n:
-                m = self.ty(depth - 1, compound_only=True)
+                m = self.ty(depth - 1, compound_only=True, target=True)
                 nm = type_name(m)
                 if nm in names:
                     continue
@@ -189,6 +190,8 @@ def val(t, r, dynmax=3):
         x = r.choice([lo, hi, 0, 1, r.randint(lo, hi)])
         return x, x
     if k == "string":
+        if r.random() < 0.12:
+            return ("CAP", r.choice([0, 1, 7, 8, 10, 16, 23])), ""     # String(capacity) reads back as the empty string
         s = r.choice(STRINGS)
         return s, s
     if k == "struct":
@@ -222,6 +225,8 @@ def val(t, r, dynmax=3):
 def to_py(t, d, cache, form="py"):
     """constructor argument from generated data; form: py | nd (ndarray where possible) | ndobj"""
     k = t[0]
+    if k == "string" and isinstance(d, tuple):
+        return d[1]
     if k in ("scalar", "string"):
         return d
     if k == "struct":
